@@ -385,17 +385,23 @@ class UnitFile:
                 anchor, where, proof = h["anchor"], h.get("where", "before"), h["text"]
                 nth, hname = h.get("nth", 0), h.get("name")
                 hprops = set(h["props"]) if h.get("props") else None
+                optional = h.get("optional", False)
             else:
                 anchor, where, proof = h[0], h[1], h[2]
                 nth = h[3] if len(h) > 3 else 0
                 hname = h[4] if len(h) > 4 else None
                 hprops = None
+                optional = False
             atoks = [t.text for t in code_tokens(tokenize(anchor))]
             hits = [a for a in range(len(toks) - len(atoks) + 1)
                     if all(toks[a + d].text == atoks[d] for d in range(len(atoks)))]
             if nth == "all":
                 sel = hits
             else:
+                if len(hits) <= nth and optional:
+                    # a proof hint (no obligation of its own) whose anchor is gone: the proof may need it, in
+                    # which case the function fails to verify and is classified like any other failure
+                    continue
                 if len(hits) <= nth:
                     raise ExtractError("%s: hint anchor %r (occurrence %s) not found" % (gname, anchor, nth))
                 sel = [hits[nth]]
